@@ -413,7 +413,7 @@ def main_run(prop, tier, seed, examples=None, shard=None, out=None, jobs=None, r
     floor_fail = []
     if not violations:
         for c, frac in prop.floors.items():
-            got = stats.classes.get(c, 0) / max(1, stats.evaluations)
+            got = stats.classes.get(c, 0) / max(1, stats.evaluations - stats.enumerated)   # of the searched cases
             if got < frac:
                 floor_fail.append('%s: %.3f < %.3f' % (c, got, frac))
     ev = write_evidence(prop, tier, seed, stats, violations, wall, r.findings)
